@@ -4,7 +4,7 @@
 (* each format, and the running clip of TT-SVD on a generic (full-rank) tensor.                     *)
 EXTENDS Tens, TLC
 
-CONSTANTS MaxOrder, MaxDim, MaxReq
+CONSTANTS MaxOrder, MaxDim, MaxReq, MaxTRReq
 
 MinI(a, b) == IF a <= b THEN a ELSE b
 Min3(a, b, c) == MinI(a, MinI(b, c))
@@ -29,6 +29,26 @@ FullTTRanks(shape) ==
 
 NParamTT(shape, r) == SumSeq([k \in 1..Len(shape) |-> r[k] * shape[k] * r[k + 1]])
 
+\* ---- TR-SVD (tensor_ring) on a generic tensor, first matricisation along `mode` (0-based), request reqv (N+1 bonds,
+\* reqv[1] = reqv[N+1]).  The routine works on the modes rotated so that `mode` comes first; the first core takes the
+\* bonds r0 x r1 from ONE truncated SVD (feasible iff r0*r1 fits the first unfolding -- otherwise the documented
+\* ValueError); every later bond is the request clipped by both sides of the running unfolding.
+Rot(q, m) == [k \in 1..Len(q) |-> q[((k - 1 + m) % Len(q)) + 1]]                  \* q[m:] + q[:m]
+TRRotReq(reqv, m) == LET N == Len(reqv) - 1 IN [k \in 1..(N + 1) |-> reqv[((k - 1 + m) % N) + 1]]   \* rank[m:-1] + rank[:m+1]
+TRFeasible(shape, m, reqv) ==
+    LET sh == Rot(shape, m)  rq == TRRotReq(reqv, m) IN
+    rq[1] * rq[2] <= MinI(sh[1], ProdSeq(SubSeq(sh, 2, Len(sh))))
+TRSVDRanks(shape, m, reqv) ==
+    LET N  == Len(shape)
+        sh == Rot(shape, m)
+        rq == TRRotReq(reqv, m)
+        R[k \in 1..N] ==                      \* bond in front of rotated core k
+            IF k = 1 THEN rq[1]
+            ELSE IF k = 2 THEN rq[2]
+            ELSE Min3(R[k - 1] * sh[k - 1], ProdSeq(SubSeq(sh, k, N)) * rq[1], rq[k])
+        rot == [k \in 1..N |-> R[k]]
+    IN  [b \in 1..(N + 1) |-> rot[((b - 1 - m + N) % N) + 1]]         \* rotate back; the ring closes: bond N+1 = bond 1
+
 \* ---- structure predicates on logged factor shapes (fshapes[k] = <<r_k, s_k, r_{k+1}>>)
 ChainOK(shape, fs) ==
     /\ Len(fs) = Len(shape)
@@ -46,7 +66,22 @@ VARIABLE cfg
 NoCfg == [kind |-> "none"]
 Init == cfg \in {[kind |-> "shape", shape |-> s] : s \in Shapes}
 Next == cfg.kind = "shape" /\ cfg' \in {[kind |-> "int", shape |-> cfg.shape, req |-> <<r>>] : r \in 1..MaxReq}
+                                    \cup {[kind |-> "tr", shape |-> cfg.shape, mode |-> m, req |-> rq \o <<rq[1]>>] :
+                                             m \in 0..(Len(cfg.shape) - 1), rq \in [1..Len(cfg.shape) -> 1..MaxTRReq]}
 Spec == Init /\ [][Next]_cfg
+
+\* TR-SVD theorems: on every feasible request the computed bonds close the ring, chain, never exceed the request,
+\* keep the two bonds of the first core as requested, and every core's bond is bounded by what its unfolding can carry
+TRSpecOK ==
+    (cfg.kind = "tr" /\ Len(cfg.shape) >= 3 /\ TRFeasible(cfg.shape, cfg.mode, cfg.req)) =>
+        LET N == Len(cfg.shape)
+            r == TRSVDRanks(cfg.shape, cfg.mode, cfg.req)
+            fs == [k \in 1..N |-> <<r[k], cfg.shape[k], r[k + 1]>>] IN
+        /\ ChainOK(cfg.shape, fs) /\ TRBoundaryOK(fs) /\ RanksOf(fs) = r
+        /\ \A b \in 1..(N + 1) : r[b] >= 1 /\ r[b] <= cfg.req[b]
+        /\ r[cfg.mode + 1] = cfg.req[cfg.mode + 1] /\ r[cfg.mode + 2] = cfg.req[cfg.mode + 2]
+        \* a core after the first cannot create rank (in sweep order, up to the last core, which closes the ring)
+        /\ \A j \in 2..(N - 1) : LET b == ((cfg.mode + j - 1) % N) + 1 IN r[(b % N) + 1] <= r[b] * cfg.shape[b]
 
 SpecOK ==
     cfg.kind = "int" =>
